@@ -25,7 +25,7 @@ from collections import deque
 
 from ..cfg import CFG
 from ..model import unparse
-from ..normalize import single_assignments
+from ..normalize import Normalizer, single_assignments
 
 
 # ---------------------------------------------------------------------------------------------- formulas
@@ -395,12 +395,12 @@ def make_call_eval(ctx, fn):
         if _depth > 2:
             return None
         try:
-            callee = ctx.norm._callee(fn, call)
+            callee = norm(ctx)._callee(fn, call)
         except Exception:  # pragma: no cover
             callee = None
         if callee is None:
             return None
-        v = ctx.view(callee)
+        v = view(ctx, callee)
         a = v.node.args
         params = [x.arg for x in a.posonlyargs + a.args]
         args = list(call.args)
@@ -783,7 +783,7 @@ def expand_generators(ctx, fn):
         callee = _gen_callee(ctx, fn, call)
         if callee is None:
             return None
-        gv = ctx.view(callee)
+        gv = view(ctx, callee)
         body = [copy.deepcopy(st) for st in gv.node.body if not (isinstance(st, ast.Expr) and isinstance(st.value, ast.Constant))]
         if not body or not isinstance(body[-1], ast.For) or body[-1].orelse:
             return None
@@ -888,3 +888,130 @@ def expand_generators(ctx, fn):
         return fn
     ast.fix_missing_locations(node)
     return _replace(fn, node=node)
+
+
+# ---------------------------------------------------------------------------------------------- specialisation
+def specialise(fn_node, consts=None, kinds=None, call_eval=None, rounds=3):
+    """The function body under the rule's assumptions (a parameter equal to a constant, the kind of a subject): `if`s the
+    assumptions decide are replaced by the branch taken, and a loop over a short literal sequence (`for c in (a,)`,
+    `for c in iter((a, b))`, also through a local that became single-assignment by the pruning) is unrolled with the loop variable
+    bound per element.  What is left is the code that runs in that case, in a form where tables of one entry, `containers =
+    ... if is_type else ...` and the like no longer hide which object a statement works on."""
+    consts = dict(consts or {})
+    stored = {x.id for x in ast.walk(fn_node) if isinstance(x, ast.Name) and isinstance(x.ctx, (ast.Store, ast.Del))}
+    consts = {k: v for k, v in consts.items() if k not in stored}
+    node = copy.deepcopy(fn_node)
+    counter = [0]
+    for _ in range(rounds):
+        S = Sym(node, consts=consts, kinds=kinds, call_eval=call_eval)
+        changed = [False]
+
+        def elements(it):
+            it = S.X(it)
+            if isinstance(it, ast.Call) and isinstance(it.func, ast.Name) and it.func.id in ("iter", "tuple", "list") and len(it.args) == 1 and not it.keywords:
+                it = it.args[0]
+            if isinstance(it, (ast.Tuple, ast.List)) and 0 < len(it.elts) <= 4 and not any(isinstance(e, ast.Starred) for e in it.elts):
+                return it.elts
+            return None
+
+        def block(stmts):
+            out = []
+            for st in stmts:
+                if isinstance(st, ast.If):
+                    f = S.formula(st.test)
+                    if f is True or f is False:
+                        changed[0] = True
+                        out += block(st.body if f is True else st.orelse)
+                        continue
+                if isinstance(st, ast.For) and isinstance(st.target, ast.Name) and not st.orelse and not _own_level(st.body, (ast.Break, ast.Continue)) \
+                        and not any(isinstance(x, (ast.Yield, ast.YieldFrom)) for b in st.body for x in _walk_own(b)):
+                    els = elements(st.iter)
+                    if els is not None:
+                        changed[0] = True
+                        for el in els:
+                            counter[0] += 1
+                            nm = f"{st.target.id}__u{counter[0]}"
+
+                            class Ren(ast.NodeTransformer):
+                                def visit_Name(self, n, nm=nm, old=st.target.id):
+                                    return ast.copy_location(ast.Name(id=nm, ctx=n.ctx), n) if n.id == old else n
+
+                            out.append(ast.copy_location(ast.Assign(targets=[ast.Name(id=nm, ctx=ast.Store())], value=copy.deepcopy(el), lineno=st.lineno), st))
+                            out += block([Ren().visit(copy.deepcopy(b)) for b in st.body])
+                        continue
+                for fld in ("body", "orelse", "finalbody"):
+                    b = getattr(st, fld, None)
+                    if isinstance(b, list) and b and isinstance(b[0], ast.stmt):
+                        nb = block(b)
+                        setattr(st, fld, nb if nb or fld != "body" else [ast.copy_location(ast.Pass(), st)])
+                for h in getattr(st, "handlers", None) or []:
+                    h.body = block(h.body) or [ast.copy_location(ast.Pass(), h)]
+                out.append(st)
+            return out
+
+        node.body = block(node.body) or [ast.copy_location(ast.Pass(), node)]
+        ast.fix_missing_locations(node)
+        if not changed[0]:
+            break
+    return node
+
+
+# ---------------------------------------------------------------------------------------------- the C01 view
+class _Names(set):
+    """names the C01 rules locate a function by (string constants of the rule files that are identifiers / dotted paths; a
+    constant ending in `_` is a prefix)."""
+
+    def __contains__(self, name):
+        return set.__contains__(self, name) or any(p.endswith("_") and name.startswith(p) for p in self)
+
+
+_OWN_NAMES = None
+
+
+def own_names() -> _Names:
+    global _OWN_NAMES
+    if _OWN_NAMES is None:
+        import os
+        import re
+
+        names = _Names()
+        here = os.path.dirname(os.path.abspath(__file__))
+        for f in os.listdir(here):
+            if f == "c01.py" or f.startswith("_c01_"):
+                tree = ast.parse(open(os.path.join(here, f), encoding="utf-8").read())
+                for x in ast.walk(tree):
+                    if isinstance(x, ast.Constant) and isinstance(x.value, str) and re.fullmatch(r"[A-Za-z_][A-Za-z0-9_.]*", x.value):
+                        names |= set(x.value.split("."))
+                    elif isinstance(x, ast.Constant) and isinstance(x.value, str):
+                        names |= set(re.findall(r"([A-Za-z_][A-Za-z0-9_]*)\(", x.value))  # functions named in a condition / pattern text
+        names.discard("")
+        _OWN_NAMES = names
+    return _OWN_NAMES
+
+
+class _Norm(Normalizer):
+    """The shared normaliser; the only difference: a public helper is left unexpanded when a C01 rule locates a function by that
+    name — not when the word merely occurs somewhere in some rule file (a helper called `unlink`, `find`, `update` ... that a
+    refactoring introduced is part of its caller)."""
+
+    def _callee(self, fn, call):
+        from .. import normalize as N
+
+        N.rule_named_identifiers()
+        saved = N._IDENT_CACHE
+        N._IDENT_CACHE = own_names()
+        try:
+            return super()._callee(fn, call)
+        finally:
+            N._IDENT_CACHE = saved
+
+
+def norm(ctx):
+    if "c01.norm" not in ctx.cache:
+        ctx.cache["c01.norm"] = _Norm(ctx.p)
+    return ctx.cache["c01.norm"]
+
+
+def view(ctx, spec_or_fn):
+    fn = ctx.p.func(spec_or_fn) if isinstance(spec_or_fn, str) else spec_or_fn
+    return norm(ctx).view(fn)
